@@ -574,9 +574,15 @@ func (c *evalCtx) evalArray(s *sg.Schema, a []any, path string, pos ctxPos) {
 // anonItem models an inline item schema inside a named array type: the element type is an anonymous
 // Go type without unmarshaler, so only Go typing and the rules of named field types apply.
 func (c *evalCtx) anonItem(it *sg.Schema, e any, path string, pos ctxPos) {
+	if (len(it.AllOf) > 0 || len(it.AnyOf) > 0) && len(it.Types) == 0 && !it.HasEnum {
+		return // an untyped composition as the inline item of a named array is generated as interface{}
+	}
 	if it.HasEnum || len(it.AnyOf) > 0 {
 		c.eval(it, e, path, pos)
 		return
+	}
+	if (len(it.AllOf) > 0 || len(it.AnyOf) > 0) && len(it.Types) == 0 {
+		return // an untyped composition as the inline item of a named array is generated as interface{}
 	}
 	if len(it.AllOf) > 0 {
 		// merged anonymous struct: Go typing of the union of the branches' properties only
